@@ -11,6 +11,7 @@
 import StVerif.Lemmas.StreamOps
 import StVerif.Lemmas.UtfStd
 import StVerif.Lemmas.UtfString
+import StVerif.Props.C12
 
 namespace StVerif.Props.C16
 open StVerif StVerif.Stream StVerif.Generated StVerif.Spec
@@ -222,6 +223,23 @@ theorem step_fault_safe {p : Pool} (hi : Inv p) (op : Op) (hwf : op.wf) (hok : B
   · exact ⟨p', h2, Or.inl ⟨h1, h3⟩⟩
   · exact ⟨p', h2, Or.inr (Or.inl ⟨h1, h3⟩)⟩
   · exact ⟨p', h2, Or.inr (Or.inr ⟨h1, h3, h5⟩)⟩
+
+/-- **integer insertion appends the canonical decimal text.**  In the machine model the digits of
+    `ss << v` are a parameter of `Op.appendNum`; C12 (`stream_canonical`) proves that the stream's own
+    formatter (`uint_formatter` behind `operator<<(int … unsigned long long)`, with the promotions of
+    the narrow types) produces sign and digits of the canonical text for every value of every integer
+    type.  Together: the operation the code performs for `ss << v` is, at the level of the byte log,
+    `append (intText 10 v)` — so `stream_refines` covers integer insertions with no assumption left
+    on the digits. -/
+theorem int_insertion_appends_canonical (o : Nat) (t : Num.IntTy) (v : Int) (hv : t.holds v) :
+    ∃ neg ds, Num.streamInt t v = .ok ((if neg then [45] else []) ++ ds) ∧
+      (Op.appendNum o neg ds).toSpec = .append o (Digits.intText 10 false v) := by
+  refine ⟨decide (v < 0), Digits.natText 10 false v.natAbs, ?_, ?_⟩
+  · rw [StVerif.Props.C12.stream_canonical t v hv]; simp [Digits.intText]
+  · simp [Op.toSpec, Digits.intText]
+
+/-- non-vacuity: the most negative `long` -/
+example : (Num.IntTy.s64).holds (-9223372036854775808) := by decide
 
 /-- the signed-number overloads as first read (`append_char('-')`, then `append(digits)`): `ss << -5` on a
     stream of 255 bytes whose growth fails had appended the '-' (size 256) when `bad_alloc` arrived … -/
